@@ -9,6 +9,7 @@
 -/
 import Proofs.EndToEnd
 import Proofs.DdsRoundtrip
+import Proofs.DdsPrintable
 import Proofs.XdrSize
 namespace Pydap.E2E
 open Pydap Pydap.Xdr
@@ -140,5 +141,124 @@ theorem clientDecode_body (d : Dds.Dataset) (s0 : Dds.Text) (t : Tmpl) (data : D
   unfold clientDecode splitBody
   rw [e, split_sepFree _ _ hsep]
   simp only [decode_encode s0 hascii, parse_print_nonl d s0 hp hwf, ht, hdec]
+
+/-! ### bridge between the declaration types -/
+
+theorem normTy_npChar (ty : Ty) : Dds.normTy (npChar ty) = (parserStr ty).toList := by
+  cases ty <;> decide
+
+theorem tyOfParserDt_parserStr (ty : Ty) : tyOfParserDt (parserStr ty).toList = some ty := by
+  cases ty <;> decide
+
+theorem tyKnown_npChar (ty : Ty) :
+    (Dds.lookup Gen.NUMPY_TO_DAP2_TYPEMAP (Dds.dtypeChar (npChar ty))).isSome = true := by
+  cases ty <;> decide
+
+theorem map_toNat_ofNat (l : List Nat) : (l.map Int.ofNat).map Int.toNat = l := by
+  induction l with
+  | nil => rfl
+  | cons a as ih => simp only [List.map_cons, ih]; simp
+
+/-- **server declaration → DDS text → client declaration → decoder declaration** is the identity on
+    (type, shape): what `dds_to_dataset` builds from the printed declaration of a variable of DAP2 type `ty`
+    and shape `shape` converts to the `Xdr` declaration `.base ty shape` the decoder model is run with -/
+theorem baseOfDds_normBase (name : Dds.Text) (dims : List Dds.Text) (ty : Ty) (shape : List Nat)
+    (hd : dims = [] ∨ dims.length = shape.length) :
+    baseOfDds (Dds.normBase (ddsBase name dims ty shape) 0) = some (.base ty shape) := by
+  have hshape : (Dds.normBase (ddsBase name dims ty shape) 0).shape = shape.map Int.ofNat := by
+    unfold Dds.normBase ddsBase
+    simp only [List.drop_zero]
+    by_cases h1 : dims ≠ []
+    · have hl : dims.length = shape.length := by
+        rcases hd with h | h
+        · exact absurd h h1
+        · exact h
+      rw [if_pos h1]
+      exact List.map_snd_zip (by simp [hl])
+    · rw [if_neg h1]
+      by_cases h2 : (shape.map Int.ofNat).length = 1
+      · rw [if_pos h2]
+      · rw [if_neg h2]
+  have hdt : (Dds.normBase (ddsBase name dims ty shape) 0).dt = (parserStr ty).toList := by
+    have : (Dds.normBase (ddsBase name dims ty shape) 0).dt = Dds.normTy (npChar ty) := by
+      unfold Dds.normBase ddsBase
+      simp only [List.drop_zero]
+      split
+      · rfl
+      · split <;> rfl
+    rw [this, normTy_npChar]
+  unfold baseOfDds
+  rw [hshape, hdt, tyOfParserDt_parserStr]
+  have hall : (shape.map Int.ofNat).all (0 ≤ ·) = true := by
+    rw [List.all_eq_true]; intro x hx
+    simp only [List.mem_map] at hx
+    obtain ⟨n, _, rfl⟩ := hx
+    simp
+  rw [if_pos hall, map_toNat_ofNat]
+  rfl
+
+/-- the dataset the server answers an array request with: the one constrained variable -/
+def answerDs (dsName name : Dds.Text) (dims : List Dds.Text) (ty : Ty) (cshape : List Nat) : Dds.Dataset :=
+  ⟨dsName, [.base (ddsBase name dims ty cshape)]⟩
+
+/-- what remains a *checked hypothesis* about the printed text (decidable for every concrete dataset, checked
+    by the harness on every real body): it is ASCII and none of its newlines is followed by `D` -/
+def TextOk (d : Dds.Dataset) : Prop :=
+  ∀ s0, Dds.printDs d = .ok (s0 ++ ['\n']) → (∀ c ∈ s0, c.toNat < 128) ∧ sepFree (encodeAscii s0) = true
+
+theorem answerDs_wf (dsName name : Dds.Text) (dims : List Dds.Text) (ty : Ty) (cshape : List Nat)
+    (hds : Dds.NameOk dsName) (hn : Dds.NameOk name) (hdn : ∀ x ∈ dims, Dds.NameOk x) :
+    Dds.WFds (answerDs dsName name dims ty cshape) := by
+  refine ⟨hds, ⟨⟨hn, hdn, ?_⟩, trivial⟩, by simp [answerDs, Dds.Tmpl.name]⟩
+  intro n hn'
+  simp only [ddsBase, List.mem_map] at hn'
+  obtain ⟨m, _, rfl⟩ := hn'
+  simp
+
+theorem answerDs_prints (dsName name : Dds.Text) (dims : List Dds.Text) (ty : Ty) (cshape : List Nat) :
+    ∃ s0, Dds.printDs (answerDs dsName name dims ty cshape) = .ok (s0 ++ ['\n']) := by
+  obtain ⟨s, hs⟩ := Dds.printDs_ok (answerDs dsName name dims ty cshape)
+    (by simp only [answerDs, Dds.PrintableL, Dds.PrintableT, Dds.TyKnown, ddsBase]
+        exact ⟨tyKnown_npChar ty, trivial⟩)
+  obtain ⟨b, _, e⟩ := printDs_ends_nl _ s hs
+  exact ⟨_, by rw [hs, e]⟩
+
+theorem answerDs_tmpl (dsName name : Dds.Text) (dims : List Dds.Text) (ty : Ty) (cshape : List Nat)
+    (hd : dims = [] ∨ dims.length = cshape.length) :
+    tmplOfDataset (Dds.normDs (answerDs dsName name dims ty cshape)) = some (answerTmpl ty cshape) := by
+  simp [tmplOfDataset, Dds.normDs, answerDs, Dds.normL, Dds.normT, tmplOfDds, baseOfDds_normBase name dims ty cshape hd,
+    answerTmpl]
+
+/-- **(B), generic in the expansion `E` of the index**: request ∘ server slicing ∘ DDS print ‖ `Data:` ‖ XDR
+    encode ∘ client split ∘ DDS parse ∘ declaration conversion ∘ XDR decode = numpy indexing, and the
+    declaration the client holds afterwards is the printed one (name, parser dtype of `ty`, constrained
+    shape, dimension names) -/
+theorem fetchArrayText_spec (dsName name : Dds.Text) (dims : List Dds.Text) (ty : Ty) (shape : List Nat)
+    (vals : List Val) (pre : List PSlice) (idx E : List Idx)
+    (hw : WFArr ty shape vals) (hlen : pre.length ≤ shape.length)
+    (hfix : ∀ cshape : List Nat, cshape.length = shape.length → fixSlice idx cshape = zipFix E cshape)
+    (hv : ValidList shape (padPre pre shape.length) E)
+    (hds : Dds.NameOk dsName) (hn : Dds.NameOk name) (hdn : ∀ x ∈ dims, Dds.NameOk x)
+    (hd : dims = [] ∨ dims.length = shape.length)
+    (htext : ∀ cshape, TextOk (answerDs dsName name dims ty cshape)) :
+    ∃ cshape vs, numpyIndex shape vals (padPre pre shape.length) E = some (cshape, vs) ∧
+      fetchArrayText dsName name dims ty shape vals pre idx
+        = .ok (Dds.normDs (answerDs dsName name dims ty cshape), .tuple [dataOf cshape vs], []) := by
+  obtain ⟨R, h1, h2, h3⟩ := remoteIndex_spec shape pre idx E hlen hfix hv
+  subst h3
+  have hq := reqList_length shape _ E hv
+  refine ⟨_, _, numpyIndex_of_positions shape vals _ E _ hq hw.1 h2, ?_⟩
+  have hcl : (selShape (selList shape (reqList shape (padPre pre shape.length) E))).length = shape.length := by
+    simp [selShape, selList_length shape _ hq]
+  obtain ⟨s0, hs0⟩ := answerDs_prints dsName name dims ty
+    (selShape (selList shape (reqList shape (padPre pre shape.length) E)))
+  obtain ⟨ha, hs⟩ := htext _ s0 hs0
+  have hbody := clientDecode_body _ s0 _ _ (answerDs_wf dsName name dims ty _ hds hn hdn) hs0 ha hs
+    (answerDs_tmpl dsName name dims ty _ (by rw [hcl]; exact hd)) (served_wf ty shape vals _ hw hq)
+  unfold fetchArrayText responseBody
+  simp only [h1, served]
+  unfold answerDs at hs0
+  rw [hs0]
+  exact hbody
 
 end Pydap.E2E
